@@ -37,10 +37,14 @@ use std::any::TypeId;
 use std::collections::BTreeMap;
 use std::sync::Arc;
 
-const RULE: &str = "topologies: line / star / hub / ring of 1..5 ArpRouters joining 2..6 /24 subnets, 1..2 hosts per subnet (Udp+Ipv4+Arp(SubnetInfo)+Pci+Recorder), static routes correct or mutated (missing entry, wrong neighbour = loop, default route, black-hole gateway, /32 override, wrongly-direct); units: sequential sends (udp path TTL 30, raw path TTL 0..255, protocols 17/6/1, fragments, wrong ports, unknown destinations) each run to quiescence and compared frame-for-frame (ARP + IPv4) with the model, and bursts of simultaneous sends compared on IPv4 frames / tap deliveries / application deliveries; paused-clock current_thread runtime; non-trivial = a datagram crossed >= 1 router (>= 2 IPv4 frames with its token); distinct = hash of the case's op lines";
+const RULE: &str = "topologies: line / star / hub / ring of 1..5 ArpRouters joining 2..6 /24 subnets, 1..2 hosts per subnet (Udp+Ipv4+Arp(SubnetInfo)+Pci+Recorder), static routes correct or mutated (missing entry, wrong neighbour = loop, default route, black-hole gateway, /32 override, wrongly-direct); 2 of 5 cases add NESTED route sets to a router (2..6 entries of lengths 32/31/30/25..29/24/17..23/16/8/1/0 around a host address, host bits set, sibling prefixes, duplicates of one prefix, shuffled, each with its own next hop or slot) and aim datagrams at that address and its /31 and /30 siblings; 1 of 3 sequential cases has TIME STRUCTURE (the ARP frames sent by / the ARP requests for one host or router are lost by the network for some units = whole retry budgets, or a host claims its address late, with datagrams before, during and after); the delivery expectation of every datagram is computed by following the configured tables with a reference longest-prefix match, and every frame a router emits is checked against that reference (slot, next hop); units: sequential sends (udp path TTL 30, raw path TTL 0..255, protocols 17/6/1, fragments, wrong ports, unknown destinations) each run to quiescence and compared frame-for-frame (ARP + IPv4) with the model, and bursts of simultaneous sends compared on IPv4 frames / tap deliveries / application deliveries; paused-clock current_thread runtime; non-trivial = a datagram crossed >= 1 router (>= 2 IPv4 frames with its token); distinct = hash of the case's op lines";
 
 const T0_US: u64 = 1_000;
-const WINDOW_US: u64 = 8_000_000;
+/// length of a unit's time window.  The scripted sends of ONE host run one after the other, and a
+/// resolution nobody answers takes the whole retry budget (10 x 200 ms), so a burst of up to six
+/// datagrams of one host for unanswered addresses needs 12 s before the last ARP request is out;
+/// the silence oracle wants the last `QUIET_US` of the window free of frames.
+const WINDOW_US: u64 = 24_000_000;
 const QUIET_US: u64 = 4_000_000;
 /// frames per case after which the harness cuts a storm off
 const FRAME_CAP: usize = 20_000;
@@ -57,6 +61,8 @@ struct HostD {
     mask: u32,
     gw: u32,
     port: u16,
+    /// the host claims its address (ARP answers, UDP binding) only at its `claim` unit
+    late: bool,
 }
 #[derive(Clone, Debug)]
 struct RouteD {
@@ -98,6 +104,11 @@ struct SendD {
 enum Unit {
     One(SendD),
     Burst(Vec<SendD>),
+    /// fault schedule from this unit on: the networks lose every ARP frame SENT by machine `.0`
+    /// (`.1 == false`), or every ARP request FOR one of its addresses (`.1 == true`); `None` = no loss
+    Mute(Option<(usize, bool)>),
+    /// the late host `.0` claims its address now
+    Claim(usize),
 }
 #[derive(Clone, Debug, Default)]
 struct CaseD {
@@ -136,7 +147,7 @@ impl CaseD {
         )];
         for (i, n) in self.nodes.iter().enumerate() {
             match n {
-                NodeD::Host(h) => l.push(format!("host {} net={} mac={} ip={} mask={} gw={} port={}", i, h.net, h.mac, ip_s(h.ip), h.mask, ip_s(h.gw), h.port)),
+                NodeD::Host(h) => l.push(format!("host {} net={} mac={} ip={} mask={} gw={} port={}{}", i, h.net, h.mac, ip_s(h.ip), h.mask, ip_s(h.gw), h.port, if h.late { " late=1" } else { "" })),
                 NodeD::Router(r) => l.push(format!(
                     "router {} slots={} routes={}",
                     i,
@@ -158,6 +169,12 @@ impl CaseD {
                     }
                     l.push("flush".into());
                 }
+                Unit::Mute(None) => l.push("mute - -".into()),
+                Unit::Mute(Some((n, inbound))) => l.push(format!("mute {} {}", n, if *inbound { "in" } else { "out" })),
+                Unit::Claim(n) => match self.nodes.get(*n) {
+                    Some(NodeD::Host(h)) => l.push(format!("claim {} ip={} mask={} gw={} port={}", n, ip_s(h.ip), h.mask, ip_s(h.gw), h.port)),
+                    _ => l.push(format!("claim {}", n)),
+                },
             }
         }
         l
@@ -189,6 +206,7 @@ impl CaseD {
                     mask: num("mask")? as u32,
                     gw: addr("gw")?,
                     port: num("port")? as u16,
+                    late: kv.get("late") == Some(&"1"),
                 })),
                 "router" => {
                     let mut r = RouterD { slots: vec![], routes: vec![] };
@@ -240,6 +258,12 @@ impl CaseD {
                     }
                 }
                 "flush" => c.units.push(Unit::Burst(std::mem::take(&mut burst))),
+                "mute" => {
+                    let who = w.get(1).copied().unwrap_or("-");
+                    let dir = w.get(2).copied().unwrap_or("-");
+                    c.units.push(Unit::Mute(if who == "-" { None } else { Some((who.parse().map_err(|_| bad())?, dir == "in")) }));
+                }
+                "claim" => c.units.push(Unit::Claim(w.get(1).and_then(|x| x.parse().ok()).ok_or_else(bad)?)),
                 _ => return Err(bad()),
             }
         }
@@ -247,6 +271,125 @@ impl CaseD {
             return Err("no topology".into());
         }
         Ok(c)
+    }
+}
+
+// ------------------------------------------------------------------------------------------
+// reference routing: what "along the routes configured" means, written from the property
+// (longest-prefix match over the configured entries, the later of two entries for the same
+// prefix replaces the earlier), independent of `IpTable` and of the Lean model
+// ------------------------------------------------------------------------------------------
+
+fn mask_of(len: u32) -> u32 {
+    if len == 0 {
+        0
+    } else if len >= 32 {
+        u32::MAX
+    } else {
+        !(u32::MAX >> len)
+    }
+}
+
+/// the configured entry a datagram for `dst` must follow: the longest prefix that contains it
+fn ref_lookup(routes: &[RouteD], dst: u32) -> Option<&RouteD> {
+    let mut best: Option<&RouteD> = None;
+    for e in routes {
+        let m = mask_of(e.len);
+        if (e.addr & m) == (dst & m) && best.map(|b| e.len >= b.len).unwrap_or(true) {
+            best = Some(e);
+        }
+    }
+    best
+}
+
+/// the machine (and its MAC there) that owns `ip` on network `net`; a late host owns its address
+/// only once it has claimed it
+fn owner_of(c: &CaseD, net: usize, ip: u32, unclaimed: &[usize]) -> Option<(usize, u64)> {
+    for (i, n) in c.nodes.iter().enumerate() {
+        match n {
+            NodeD::Host(h) => {
+                if h.net == net && h.ip == ip && !unclaimed.contains(&i) {
+                    return Some((i, h.mac));
+                }
+            }
+            NodeD::Router(r) => {
+                for s in &r.slots {
+                    if s.0 == net && s.2 == ip {
+                        return Some((i, s.1));
+                    }
+                }
+            }
+        }
+    }
+    None
+}
+
+/// which faults are in force while a datagram travels
+#[derive(Clone, Debug, Default)]
+struct FaultCtx {
+    mute: Option<(usize, bool)>,
+    /// late hosts that have not claimed their address yet
+    unclaimed: Vec<usize>,
+}
+
+/// Follow the configured routes from the sending host: `Some(host)` when they lead, within the
+/// TTL, to the host that owns the destination address, every next hop on the way being an address
+/// some machine owns on the outgoing network.  `None` = no claim (no route, nobody owns a next
+/// hop there, a loop, TTL too small, or a fault in force that may touch the path).
+fn expected_delivery(c: &CaseD, s: &SendD, f: &FaultCtx) -> Option<usize> {
+    let NodeD::Host(src) = c.nodes.get(s.h)? else { return None };
+    if let Some((v, _)) = f.mute {
+        // the muted machine's ARP traffic is lost: no claim for datagrams it sends or receives and,
+        // when it is a router, for anything that leaves the sender's subnet
+        let crosses = (src.ip & mask_of(src.mask)) != (s.dst & mask_of(src.mask)) || src.mask == 32;
+        match c.nodes.get(v)? {
+            NodeD::Host(h) => {
+                if v == s.h || h.ip == s.dst {
+                    return None;
+                }
+            }
+            NodeD::Router(_) => {
+                if crosses {
+                    return None;
+                }
+            }
+        }
+    }
+    let m = mask_of(src.mask);
+    let mut net = src.net;
+    let mut nh = if (src.ip & m) == (s.dst & m) { s.dst } else { src.gw };
+    let mut ttl = s.ttl as u32;
+    let mut seen: Vec<usize> = vec![];
+    loop {
+        let (owner, _) = owner_of(c, net, nh, &f.unclaimed)?;
+        match &c.nodes[owner] {
+            NodeD::Host(h) => return if h.ip == s.dst && owner != s.h { Some(owner) } else { None },
+            NodeD::Router(r) => {
+                if ttl <= 1 || seen.contains(&owner) {
+                    return None;
+                }
+                ttl -= 1;
+                seen.push(owner);
+                let e = ref_lookup(&r.routes, s.dst)?;
+                let slot = r.slots.get(e.slot as usize)?;
+                net = slot.0;
+                nh = e.gw.unwrap_or(s.dst);
+            }
+        }
+    }
+}
+
+/// the full claim of the delivery clause for one datagram: it is a whole UDP datagram for the
+/// port the destination application is bound to, and the configured routes lead there in time
+fn expect_of(c: &CaseD, s: &SendD, f: &FaultCtx) -> Option<usize> {
+    if s.proto != 17 || s.flags & 1 != 0 || s.off != 0 || s.pay.len() < 8 {
+        return None;
+    }
+    let d = expected_delivery(c, s, f)?;
+    let dport = u16::from_be_bytes([s.pay[2], s.pay[3]]);
+    match &c.nodes[d] {
+        NodeD::Host(h) if h.port == dport => Some(d),
+        _ => None,
     }
 }
 
@@ -361,7 +504,7 @@ fn gen_case(rng: &mut Rng) -> CaseD {
             let mac = next_mac[n];
             next_mac[n] += 1;
             hosts.push(c.nodes.len());
-            c.nodes.push(NodeD::Host(HostD { net: n, mac, ip: net_base(n) + 10 + j as u32, mask, gw, port: 5000 + (c.nodes.len() as u16) }));
+            c.nodes.push(NodeD::Host(HostD { net: n, mac, ip: net_base(n) + 10 + j as u32, mask, gw, port: 5000 + (c.nodes.len() as u16), late: false }));
             budget = budget.saturating_sub(1);
         }
     }
@@ -462,16 +605,111 @@ fn gen_case(rng: &mut Rng) -> CaseD {
             }
         }
     }
-    // ---- sends ----
-    let nsend = rng.range(2, 6) as usize;
-    let mut sends = vec![];
-    for t in 0..nsend {
-        let tok = (t + 1) as u32;
-        let hs = *rng.pick(&hosts);
+    // ---- nested / overlapping prefixes (longest-prefix match at every depth) ----
+    // route sets in which several entries contain the same address: host routes /32, /31 and /30
+    // pairs, /25../29 slices, the /24, and /23../0 supernets, each with its own next hop / slot (the
+    // right one, another neighbour, directly attached on some slot, an address nobody owns), entries
+    // written with host bits set, sibling prefixes that do NOT contain the address, duplicates of
+    // one prefix (the later one is the route), in any order of registration
+    let mut focus: Vec<usize> = vec![];
+    if rng.chance(2, 5) {
+        c.clean = false;
+        for _ in 0..rng.range(1, 2) {
+            let r = rng.below(g.routers.len() as u64) as usize;
+            let rn = g.routers[r].clone();
+            let hidx = *rng.pick(&hosts);
+            let NodeD::Host(hd) = c.nodes[hidx].clone() else { unreachable!() };
+            focus.push(hidx);
+            let a = hd.ip;
+            let NodeD::Router(rd) = &mut c.nodes[first_router + r] else { unreachable!() };
+            let right: Option<RouteD> = ref_lookup(&rd.routes, a).cloned();
+            let k = rng.range(2, 6);
+            for _ in 0..k {
+                let len: u32 = match rng.below(12) {
+                    0 | 1 => 32,
+                    2 | 3 => 31,
+                    4 => 30,
+                    5 => rng.range(25, 29) as u32,
+                    6 => 24,
+                    7 => rng.range(17, 23) as u32,
+                    8 => *rng.pick(&[16u32, 8, 1]),
+                    9 => 0,
+                    _ => rng.range(0, 32) as u32,
+                };
+                let m = mask_of(len);
+                let mut addr = a & m;
+                match rng.below(8) {
+                    // written with host bits set (the table must mask them off)
+                    0 => addr |= (rng.next() as u32) & !m,
+                    // the sibling prefix of the same length: does not contain `a`
+                    1 | 2 if len >= 1 => addr ^= 1u32 << (32 - len),
+                    _ => {}
+                }
+                let slot = rng.below(rn.len() as u64) as usize;
+                let via = rn[slot];
+                let others: Vec<usize> = (0..g.routers.len()).filter(|y| *y != r && g.routers[*y].contains(&via)).collect();
+                let e = match rng.below(8) {
+                    0 | 1 | 2 if right.is_some() => {
+                        let rt = right.clone().unwrap();
+                        RouteD { addr, len, gw: rt.gw, slot: rt.slot }
+                    }
+                    3 | 4 if !others.is_empty() => RouteD { addr, len, gw: Some(g.router_ip(*rng.pick(&others), via)), slot: slot as u32 },
+                    5 => RouteD { addr, len, gw: Some(net_base(via) + 200), slot: slot as u32 },
+                    _ => RouteD { addr, len, gw: None, slot: slot as u32 },
+                };
+                rd.routes.push(e);
+            }
+            if rng.chance(1, 3) && !rd.routes.is_empty() {
+                // the same prefix registered again with another next hop
+                let mut e = rng.pick(&rd.routes).clone();
+                let slot = rng.below(rn.len() as u64) as usize;
+                e.slot = slot as u32;
+                e.gw = if rng.chance(1, 2) { None } else { Some(net_base(rn[slot]) + 1 + rng.below(g.routers.len() as u64) as u32) };
+                rd.routes.push(e);
+            }
+            if rng.chance(1, 2) {
+                for i in (1..rd.routes.len()).rev() {
+                    let j = rng.below(i as u64 + 1) as usize;
+                    rd.routes.swap(i, j);
+                }
+            }
+        }
+    }
+    // ---- time structure: a machine whose ARP traffic is lost for a while, or a host that claims
+    // its address late; datagrams before, during and after ----
+    let timed = !burst_case && rng.chance(1, 3);
+    let timed_kind = rng.below(8); // 0..4 mute a host, 5 mute a router, 6..7 late host
+    let victim_host = *rng.pick(&hosts);
+    if timed && timed_kind >= 6 && hosts.len() >= 2 {
+        if let NodeD::Host(h) = &mut c.nodes[victim_host] {
+            h.late = true;
+        }
+    }
+    let senders: Vec<usize> = hosts.iter().cloned().filter(|x| !matches!(&c.nodes[*x], NodeD::Host(h) if h.late)).collect();
+    // ---- one datagram ----
+    // `from` / `to`: fixed source / destination host; `good`: a whole UDP datagram for the bound
+    // port with a TTL that suffices wherever the routes lead
+    let mut tok_ctr = 0u32;
+    let mut gen_send = |rng: &mut Rng, c: &CaseD, f: &FaultCtx, from: Option<usize>, to: Option<usize>, good: bool| -> SendD {
+        tok_ctr += 1;
+        let tok = tok_ctr;
+        let hs = from.unwrap_or_else(|| *rng.pick(&senders));
         let NodeD::Host(src) = c.nodes[hs].clone() else { unreachable!() };
         // destination
         let dk = rng.below(20);
-        let (dst, dhost): (u32, Option<usize>) = if dk < 14 {
+        let (dst, dhost): (u32, Option<usize>) = if let Some(d) = to {
+            let NodeD::Host(dh) = &c.nodes[d] else { unreachable!() };
+            (dh.ip, Some(d))
+        } else if !focus.is_empty() && rng.chance(1, 2) {
+            // towards the addresses the nested route sets are about (and their /31, /30 siblings)
+            let d = *rng.pick(&focus);
+            let NodeD::Host(dh) = &c.nodes[d] else { unreachable!() };
+            match rng.below(6) {
+                0 => (dh.ip ^ 1, hosts.iter().cloned().find(|x| matches!(&c.nodes[*x], NodeD::Host(h) if h.ip == dh.ip ^ 1))),
+                1 => (dh.ip ^ 2, None),
+                _ => (dh.ip, Some(d)),
+            }
+        } else if dk < 14 {
             // another host, other subnet preferred
             let other: Vec<usize> = hosts.iter().cloned().filter(|x| *x != hs).collect();
             let far: Vec<usize> = other.iter().cloned().filter(|x| matches!(&c.nodes[*x], NodeD::Host(h) if h.net != src.net)).collect();
@@ -498,14 +736,14 @@ fn gen_case(rng: &mut Rng) -> CaseD {
         let dport = match dhost {
             Some(d) => {
                 let NodeD::Host(dh) = &c.nodes[d] else { unreachable!() };
-                if rng.chance(1, 12) { dh.port + 100 } else { dh.port }
+                if !good && rng.chance(1, 12) { dh.port + 100 } else { dh.port }
             }
             None => 7,
         };
         let dlen = *rng.pick(&[2usize, 2, 3, 8, 20]);
         let mut data = vec![(tok >> 8) as u8, tok as u8];
         data.extend(rng.bytes(dlen - 2));
-        let proto: u8 = if udp { 17 } else { *rng.pick(&[17u8, 17, 17, 17, 17, 17, 6, 1]) };
+        let proto: u8 = if udp || good { 17 } else { *rng.pick(&[17u8, 17, 17, 17, 17, 17, 6, 1]) };
         let pay = if proto == 17 {
             let mut p = build_udp_header(Ipv4Address::from(src.ip), 4000 + tok as u16, Ipv4Address::from(dst), dport, data.iter().cloned(), data.len()).expect("udp header");
             p.extend_from_slice(&data);
@@ -515,19 +753,20 @@ fn gen_case(rng: &mut Rng) -> CaseD {
             p.extend_from_slice(&data);
             p
         };
-        // routers between the subnets (ground truth on the unmutated graph)
+        // routers between the subnets on the unmutated graph (only to place TTLs around the need)
         let hops_needed: Option<usize> = dhost.and_then(|d| {
             let NodeD::Host(dh) = &c.nodes[d] else { unreachable!() };
             if dh.net == src.net {
                 Some(0)
             } else {
-                // the source's gateway router, then BFS distance from it
                 let gr = (0..g.routers.len()).find(|r| g.routers[*r].contains(&src.net) && g.router_ip(*r, src.net) == src.gw)?;
                 g.routes(gr)[dh.net].map(|e| e.2 + 1)
             }
         });
         let ttl: u8 = if udp {
-            30
+            30 // Ipv4HeaderBuilder's default: the stack chooses it on the udp path
+        } else if good {
+            *rng.pick(&[30u8, 64, 255, 12])
         } else {
             let k = hops_needed.unwrap_or(2) as u8;
             match rng.below(14) {
@@ -545,28 +784,70 @@ fn gen_case(rng: &mut Rng) -> CaseD {
                 _ => 30,
             }
         };
-        let (flags, off) = if !udp && rng.chance(1, 15) { (*rng.pick(&[1u8, 1, 3]), *rng.pick(&[0u16, 0, 5])) } else if !udp && rng.chance(1, 6) { (2, 0) } else { (0, 0) };
-        let same_subnet_by_mask = {
-            let m = Ipv4Mask::from_bitcount(src.mask).to_u32();
-            (src.ip & m) == (dst & m)
-        };
-        let expect = match (dhost, hops_needed) {
-            (Some(d), Some(k))
-                if c.clean
-                    && d != hs
-                    && proto == 17
-                    && flags & 1 == 0
-                    && off == 0
-                    && (ttl as usize) > k
-                    && matches!(&c.nodes[d], NodeD::Host(dh) if dh.port == dport)
-                    // a /32 host mask sends even same-subnet traffic to the gateway, which routes it back
-                    && (same_subnet_by_mask == (k == 0) || (k == 0 && (ttl as usize) > 1)) =>
-            {
-                Some(d)
-            }
-            _ => None,
-        };
-        sends.push(SendD { tok, h: hs, udp, src: src.ip, dst, ttl, proto, id: if udp { 0 } else { 1000 + tok as u16 }, tos: if !udp && rng.chance(1, 8) { 0x10 } else { 0 }, flags, off, pay, expect });
+        let (flags, off) = if good { (0, 0) } else if !udp && rng.chance(1, 15) { (*rng.pick(&[1u8, 1, 3]), *rng.pick(&[0u16, 0, 5])) } else if !udp && rng.chance(1, 6) { (2, 0) } else { (0, 0) };
+        let mut sd = SendD { tok, h: hs, udp, src: src.ip, dst, ttl, proto, id: if udp { 0 } else { 1000 + tok as u16 }, tos: if !udp && rng.chance(1, 8) { 0x10 } else { 0 }, flags, off, pay, expect: None };
+        // ground truth of the delivery clause: follow the configured routes (reference longest-prefix match)
+        sd.expect = expect_of(c, &sd, f);
+        sd
+    };
+    let mut fctx = FaultCtx::default();
+    fctx.unclaimed = hosts.iter().cloned().filter(|x| matches!(&c.nodes[*x], NodeD::Host(h) if h.late)).collect();
+    if timed && hosts.len() >= 2 {
+        // who sends towards the victim: a host of another subnet if there is one (then a router
+        // has to resolve the victim), the victim's neighbour otherwise
+        let d = victim_host;
+        let NodeD::Host(dh) = c.nodes[d].clone() else { unreachable!() };
+        let far: Vec<usize> = senders.iter().cloned().filter(|x| *x != d && matches!(&c.nodes[*x], NodeD::Host(h) if h.net != dh.net)).collect();
+        let near: Vec<usize> = senders.iter().cloned().filter(|x| *x != d).collect();
+        let pool = if !far.is_empty() && rng.chance(5, 6) { far } else { near };
+        let late = dh.late;
+        let victim: usize = if !late && timed_kind == 5 { first_router + rng.below(g.routers.len() as u64) as usize } else { d };
+        let mut units: Vec<Unit> = vec![];
+        // before: sometimes unrelated traffic, sometimes the victim is already known to its neighbours
+        for _ in 0..rng.below(3) {
+            let s = gen_send(rng, &c, &fctx, None, None, false);
+            units.push(Unit::One(s));
+        }
+        if !late {
+            fctx.mute = Some((victim, rng.chance(1, 4)));
+            units.push(Unit::Mute(fctx.mute));
+        }
+        // during: the resolution of the victim runs out of its whole retry budget (once or twice)
+        for _ in 0..rng.range(1, 2) {
+            let from = *rng.pick(&pool);
+            let s = gen_send(rng, &c, &fctx, Some(from), Some(d), true);
+            units.push(Unit::One(s));
+        }
+        if rng.chance(1, 3) {
+            let s = gen_send(rng, &c, &fctx, None, None, false);
+            units.push(Unit::One(s));
+        }
+        // the victim answers from now on
+        if late {
+            fctx.unclaimed.retain(|x| *x != d);
+            units.push(Unit::Claim(d));
+        } else {
+            fctx.mute = None;
+            units.push(Unit::Mute(None));
+        }
+        // after: the routes are usable, the datagrams must arrive
+        for _ in 0..rng.range(1, 3) {
+            let from = if rng.chance(3, 4) { Some(*rng.pick(&pool)) } else { None };
+            let s = gen_send(rng, &c, &fctx, from, Some(d), true);
+            units.push(Unit::One(s));
+        }
+        if rng.chance(1, 2) {
+            let s = gen_send(rng, &c, &fctx, None, None, false);
+            units.push(Unit::One(s));
+        }
+        c.units = units;
+        return c;
+    }
+    // ---- sends ----
+    let nsend = rng.range(2, 6) as usize;
+    let mut sends = vec![];
+    for _ in 0..nsend {
+        sends.push(gen_send(rng, &c, &fctx, None, None, false));
     }
     if burst_case {
         let split = rng.below(sends.len() as u64) as usize;
@@ -637,6 +918,15 @@ fn send_action(at: u64, s: &SendD, host: &HostD) -> Action {
     }
 }
 
+/// does this op line belong to a unit (everything after the topology lines)?
+fn is_unit_line(l: &str) -> bool {
+    l.starts_with("send ") || l.starts_with("bsend ") || l == "flush" || l.starts_with("mute ") || l.starts_with("claim ")
+}
+/// does this op line end a unit?
+fn ends_unit(l: &str) -> bool {
+    l.starts_with("send ") || l == "flush" || l.starts_with("mute ") || l.starts_with("claim ")
+}
+
 /// time at which unit `u` starts
 fn unit_start(u: usize) -> u64 {
     T0_US + u as u64 * WINDOW_US
@@ -648,9 +938,25 @@ fn build_scenario(c: &CaseD, upto: usize) -> Scenario {
     for (i, n) in c.nodes.iter().enumerate() {
         match n {
             NodeD::Host(h) => {
-                let mut script = vec![Action { at: None, kind: ActionKind::Listen(Ep::new(h.ip, h.port)) }];
+                // a late host binds nothing (and its Arp knows no local address) before its claim
+                let mut script = if h.late { vec![] } else { vec![Action { at: None, kind: ActionKind::Listen(Ep::new(h.ip, h.port)) }] };
                 for (ui, u) in c.units.iter().enumerate().take(upto) {
                     match u {
+                        Unit::Claim(n) if *n == i && h.late => {
+                            // the address is claimed now: subnet information for Arp, then the
+                            // application's listen (Udp::listen -> Ipv4::listen -> Arp::listen)
+                            let (ip, mask, gw) = (h.ip, h.mask, h.gw);
+                            script.push(Action {
+                                at: Some(unit_start(ui)),
+                                kind: ActionKind::Custom(Arc::new(move |ctx: Ctx| {
+                                    Box::pin(async move {
+                                        let arp = ctx.machine.protocol::<Arp>().expect("host has Arp");
+                                        arp.set_subnet(Ipv4Address::from(ip), SubnetInfo { mask: Ipv4Mask::from_bitcount(mask), default_gateway: Ipv4Address::from(gw) });
+                                    })
+                                })),
+                            });
+                            script.push(Action { at: Some(unit_start(ui)), kind: ActionKind::Listen(Ep::new(h.ip, h.port)) });
+                        }
                         Unit::One(s) if s.h == i => script.push(send_action(unit_start(ui), s, h)),
                         Unit::Burst(v) => {
                             for (j, s) in v.iter().enumerate() {
@@ -751,6 +1057,7 @@ fn run_case(c: &CaseD, upto: usize) -> CaseReport {
     let nodes = c.nodes.clone();
     let extra = move |idx: usize, m: elvis_core::Machine, _log: &Arc<Log>| -> elvis_core::Machine {
         match &nodes[idx] {
+            NodeD::Host(h) if h.late => m.with(Arp::new()),
             NodeD::Host(h) => m.with(Arp::new().preconfig_subnet(
                 Ipv4Address::from(h.ip),
                 SubnetInfo { mask: Ipv4Mask::from_bitcount(h.mask), default_gateway: Ipv4Address::from(h.gw) },
@@ -766,17 +1073,70 @@ fn run_case(c: &CaseD, upto: usize) -> CaseReport {
     };
     // a frame storm (only a broken router produces one) is cut off so that the run ends
     let frames = Arc::new(std::sync::atomic::AtomicUsize::new(0));
+    // the fault schedule: which machine's ARP traffic the networks lose during which unit
+    let mut mute_at: Vec<Option<(usize, bool)>> = vec![];
+    {
+        let mut cur = None;
+        for u in &c.units {
+            if let Unit::Mute(m) = u {
+                cur = *m;
+            }
+            mute_at.push(cur);
+        }
+    }
+    // taps and addresses of every machine
+    let taps_of: Vec<Vec<(usize, u64)>> = c.nodes.iter().map(|n| match n {
+        NodeD::Host(h) => vec![(h.net, h.mac)],
+        NodeD::Router(r) => r.slots.iter().map(|s| (s.0, s.1)).collect(),
+    }).collect();
+    let ips_of: Vec<Vec<u32>> = c.nodes.iter().map(|n| match n {
+        NodeD::Host(h) => vec![h.ip],
+        NodeD::Router(r) => r.slots.iter().map(|s| s.2).collect(),
+    }).collect();
+    let log_cell: Arc<std::sync::OnceLock<Arc<Log>>> = Arc::new(std::sync::OnceLock::new());
     let planner: Planner = {
         let frames = frames.clone();
-        Arc::new(move |_w: &WireSend| {
+        let log_cell = log_cell.clone();
+        Arc::new(move |w: &WireSend| {
             if frames.fetch_add(1, std::sync::atomic::Ordering::Relaxed) >= FRAME_CAP {
-                elvis_core::network::VerifFramePlan::Drop
-            } else {
-                elvis_core::network::VerifFramePlan::Deliver
+                return elvis_core::network::VerifFramePlan::Drop;
             }
+            if matches!(w.target, Target::Arp) && !mute_at.is_empty() {
+                let t = log_cell.get().map(|l| l.now_us()).unwrap_or(0);
+                let ui = (t.saturating_sub(T0_US) / WINDOW_US) as usize;
+                if let Some((node, inbound)) = mute_at[ui.min(mute_at.len() - 1)] {
+                    let hit = if inbound {
+                        match ArpPacket::from_bytes(w.bytes.iter().cloned()) {
+                            Ok(p) => p.oper == Operation::Request && ips_of.get(node).map_or(false, |v| v.contains(&p.target_ip.to_u32())),
+                            Err(_) => false,
+                        }
+                    } else {
+                        taps_of.get(node).map_or(false, |v| v.contains(&(w.net, w.smac)))
+                    };
+                    if hit {
+                        return elvis_core::network::VerifFramePlan::Drop;
+                    }
+                }
+            }
+            elvis_core::network::VerifFramePlan::Deliver
         })
     };
-    let res = run_scenario_with(&sc, Some(planner), &extra);
+    // as `run_scenario_with`, but the planner reads the scenario's virtual clock
+    let res = {
+        let built = build(&sc, Some(planner), &extra);
+        let _ = log_cell.set(built.log.clone());
+        let dur = std::time::Duration::from_micros(sc.duration_us);
+        let log = built.log.clone();
+        let machines = built.machines.clone();
+        let status = block_on_mode(sc.mode, async move {
+            log.start_clock();
+            elvis_core::run_internet_with_timeout(&machines, dur).await
+        });
+        for n in &built.networks {
+            n.verif_set_hook(None);
+        }
+        RunResult { status: fmt_status(&status), events: built.log.snapshot(), macs: built.macs, taps: vec![] }
+    };
     if frames.load(std::sync::atomic::Ordering::Relaxed) > FRAME_CAP {
         rep.fail(format!("more than {} frames were put on the networks in one case: a frame storm (the harness dropped the rest)", FRAME_CAP), "frame-storm");
     }
@@ -786,7 +1146,7 @@ fn run_case(c: &CaseD, upto: usize) -> CaseReport {
         NodeD::Host(h) => res.macs[i] == vec![h.mac],
         NodeD::Router(r) => res.macs[i] == r.slots.iter().map(|s| s.1).collect::<Vec<_>>(),
     });
-    while li < lines.len() && !(lines[li].starts_with("send ") || lines[li].starts_with("bsend ") || lines[li] == "flush") {
+    while li < lines.len() && !is_unit_line(&lines[li]) {
         let w = lines[li].split_whitespace().next().unwrap_or("").to_string();
         rep.line(lines[li].clone(), if mac_ok { w } else { format!("{} mac-mismatch", w) });
         li += 1;
@@ -810,30 +1170,51 @@ fn run_case(c: &CaseD, upto: usize) -> CaseReport {
     }
     let is_router = |i: usize| matches!(c.nodes[i], NodeD::Router(_));
     let mut crossed = false;
+    let unit_lines: Vec<String> = lines.iter().filter(|l| ends_unit(l)).cloned().collect();
+    // late hosts that have not claimed their address yet; destinations a datagram failed to reach
+    // while a fault was in force (for the coverage counters)
+    let mut unclaimed: Vec<usize> = c.nodes.iter().enumerate().filter(|(_, n)| matches!(n, NodeD::Host(h) if h.late)).map(|(i, _)| i).collect();
+    let mut fault_now = false;
+    let mut starved: Vec<u32> = vec![];
     for (ui, u) in c.units.iter().enumerate() {
-        let (sends, burst): (Vec<&SendD>, bool) = match u {
-            Unit::One(s) => (vec![s], false),
-            Unit::Burst(v) => (v.iter().collect(), true),
-        };
         if ui >= upto {
             break;
         }
+        let (sends, burst): (Vec<&SendD>, bool) = match u {
+            Unit::One(s) => (vec![s], false),
+            Unit::Burst(v) => (v.iter().collect(), true),
+            Unit::Mute(m) => {
+                fault_now = m.is_some();
+                rep.line(unit_lines.get(ui).cloned().unwrap_or_default(), "mute");
+                rep.count(match m { None => "units.mute.off", Some((_, true)) => "units.mute.in", Some((v, false)) => if is_router(*v) { "units.mute.out.router" } else { "units.mute.out.host" } });
+                continue;
+            }
+            Unit::Claim(n) => {
+                unclaimed.retain(|x| x != n);
+                rep.line(unit_lines.get(ui).cloned().unwrap_or_default(), "claim");
+                rep.count("units.claim");
+                continue;
+            }
+        };
         let (t_lo, t_hi) = (unit_start(ui), unit_start(ui + 1));
         let mut items: Vec<String> = vec![];
         // per token: wire frames (time order), router tap deliveries, app deliveries
         let mut wires: BTreeMap<u32, Vec<(u8, Ipv4Header, Vec<u8>, u64)>> = BTreeMap::new();
+        // per token: (network, source MAC, destination MAC) of every frame, in time order
+        let mut links: BTreeMap<u32, Vec<(usize, u64, Option<u64>)>> = BTreeMap::new();
         let mut rtaps: BTreeMap<u32, usize> = BTreeMap::new();
         let mut apps: BTreeMap<u32, Vec<(usize, Vec<u8>, Option<Ep>)>> = BTreeMap::new();
         let mut last_wire_t = 0u64;
         for e in res.events.iter().filter(|e| e.t_us >= t_lo && e.t_us < t_hi) {
             match &e.ev {
-                Ev::Wire { net, to: None, smac, dst, target, bytes, .. } => {
+                Ev::Wire { net, to: None, smac, dst, target, bytes, plan } => {
                     last_wire_t = last_wire_t.max(e.t_us);
                     match target {
                         Target::Ipv4 => {
                             if let Some((s, tok, ttl, h)) = item_ip(*net, *smac, *dst, bytes) {
                                 items.push(s);
                                 wires.entry(tok).or_default().push((ttl, h, bytes[20..].to_vec(), *smac));
+                                links.entry(tok).or_default().push((*net, *smac, *dst));
                             } else {
                                 items.push(format!("W:n{}:unparsed:{}", net, hex(bytes)));
                             }
@@ -843,6 +1224,9 @@ fn run_case(c: &CaseD, upto: usize) -> CaseReport {
                                 items.push(item_arp(*net, *smac, *dst, bytes).unwrap_or_else(|| format!("A:n{}:unparsed", net)));
                             }
                             rep.count("frames.arp");
+                            if plan == "drop" {
+                                rep.count("frames.arp.lost");
+                            }
                         }
                         t => items.push(format!("X:n{}:{}", net, t.name())),
                     }
@@ -904,6 +1288,34 @@ fn run_case(c: &CaseD, upto: usize) -> CaseReport {
                     break;
                 }
             }
+            // along the routes configured: every frame a router puts on a network for this datagram
+            // leaves through the slot, and towards the next hop, of the longest configured prefix
+            // that contains the destination (reference longest-prefix match over the case's tables)
+            for (net, smac, dmac) in links.get(&s.tok).cloned().unwrap_or_default() {
+                let Some(&em) = tap_owner.get(&(net, smac)) else { continue };
+                let NodeD::Router(r) = &c.nodes[em] else { continue };
+                let show = |e: &RouteD| format!("{}/{} via {} slot {}", fmt_addr(e.addr), e.len, e.gw.map(fmt_addr).unwrap_or("-".into()), e.slot);
+                match ref_lookup(&r.routes, s.dst) {
+                    None => {
+                        rep.fail(what(&format!("router {} forwarded the datagram (a frame on network {}) although none of its routes contains {}", em, net, fmt_addr(s.dst))), "forwarded-without-a-route");
+                    }
+                    Some(e) => {
+                        let Some(&(enet, emac, _)) = r.slots.get(e.slot as usize) else { continue };
+                        let nh = e.gw.unwrap_or(s.dst);
+                        if (net, smac) != (enet, emac) {
+                            rep.fail(what(&format!("router {} sent the datagram out on network {} (its MAC {}), but its longest matching route for {} is {} = network {}; table: {}", em, net, smac, fmt_addr(s.dst), show(e), enet, r.routes.iter().map(|x| show(x)).collect::<Vec<_>>().join("; "))), "forwarded-off-the-configured-route");
+                            break;
+                        }
+                        if let Some((own, omac)) = owner_of(c, enet, nh, &unclaimed) {
+                            if dmac != Some(omac) {
+                                rep.fail(what(&format!("router {} addressed the frame on network {} to MAC {:?}, but the next hop {} of its longest matching route ({}) is machine {} with MAC {}", em, net, dmac, fmt_addr(nh), show(e), own, omac)), "forwarded-to-the-wrong-next-hop");
+                                break;
+                            }
+                        }
+                        rep.count("hops.checked_against_reference_lpm");
+                    }
+                }
+            }
             // bounded life
             if w.len() > life {
                 rep.fail(what(&format!("{} frames of one datagram on the networks, more than its initial TTL", w.len())), "more-frames-than-initial-ttl");
@@ -928,11 +1340,20 @@ fn run_case(c: &CaseD, upto: usize) -> CaseReport {
             if let Some(d) = s.expect {
                 rep.count("expect.delivery");
                 if a.len() != 1 || a[0].0 != d {
-                    rep.fail(what(&format!("routes are correct and the TTL suffices, but the datagram was not delivered to machine {} (deliveries: {:?})", d, a.iter().map(|x| x.0).collect::<Vec<_>>())), "not-delivered-on-correct-routes");
+                    rep.fail(what(&format!("the configured routes (followed by longest-prefix match) lead to machine {} and the TTL suffices, but the datagram was not delivered there (deliveries: {:?})", d, a.iter().map(|x| x.0).collect::<Vec<_>>())), "not-delivered-on-correct-routes");
                 }
             }
             if !a.is_empty() {
                 rep.count("delivered");
+            }
+            // coverage of the time-structured families
+            let dst_unclaimed = unclaimed.iter().any(|i| matches!(&c.nodes[*i], NodeD::Host(h) if h.ip == s.dst));
+            if (fault_now || dst_unclaimed) && a.is_empty() && !starved.contains(&s.dst) {
+                starved.push(s.dst);
+                rep.count("timed.undelivered_while_arp_unanswered");
+            }
+            if !fault_now && !dst_unclaimed && s.expect.is_some() && starved.contains(&s.dst) {
+                rep.count(if a.is_empty() { "timed.expected_after_recovery.missing" } else { "timed.expected_after_recovery.delivered" });
             }
         }
         // silence: nothing on any network in the tail of the window
@@ -982,14 +1403,14 @@ fn worker_case(spec: &str) -> CaseReport {
 /// number of op lines before the first unit, and op-line count per unit
 fn layout(lines: &[String]) -> (usize, Vec<usize>) {
     let mut head = 0;
-    while head < lines.len() && !(lines[head].starts_with("send ") || lines[head].starts_with("bsend ") || lines[head] == "flush") {
+    while head < lines.len() && !is_unit_line(&lines[head]) {
         head += 1;
     }
     let mut units = vec![];
     let mut cur = 0;
     for l in &lines[head..] {
         cur += 1;
-        if l.starts_with("send ") || l == "flush" {
+        if ends_unit(l) {
             units.push(cur);
             cur = 0;
         }
@@ -1055,15 +1476,16 @@ fn fixed_cases() -> Vec<Vec<String>> {
             "router 2 slots=0:1:10.0.0.1,1:1:10.0.1.1 routes=10.0.0.0/24/-/0;10.0.1.0/24/-/1".into(),
         ]
     };
-    let raw = |tok: u32, ttl: u8, dlen: usize, expect: &str| -> String {
+    let raw_to = |tok: u32, ttl: u8, dlen: usize, dst_s: &str, dport: u16, expect: &str| -> String {
         let mut data = vec![(tok >> 8) as u8, tok as u8];
         data.resize(dlen, 0x5a);
         let src = parse_addr("10.0.0.10").unwrap();
-        let dst = parse_addr("10.0.1.10").unwrap();
-        let mut pay = build_udp_header(Ipv4Address::from(src), 4000, Ipv4Address::from(dst), 5001, data.iter().cloned(), data.len()).unwrap();
+        let dst = parse_addr(dst_s).unwrap();
+        let mut pay = build_udp_header(Ipv4Address::from(src), 4000, Ipv4Address::from(dst), dport, data.iter().cloned(), data.len()).unwrap();
         pay.extend_from_slice(&data);
-        format!("send tok={} h=0 kind=raw src=10.0.0.10 dst=10.0.1.10 ttl={} proto=17 id={} tos=0 flags=0 off=0 pay={} expect={}", tok, ttl, 1000 + tok, hex(&pay), expect)
+        format!("send tok={} h=0 kind=raw src=10.0.0.10 dst={} ttl={} proto=17 id={} tos=0 flags=0 off=0 pay={} expect={}", tok, dst_s, ttl, 1000 + tok, hex(&pay), expect)
     };
+    let raw = |tok: u32, ttl: u8, dlen: usize, expect: &str| -> String { raw_to(tok, ttl, dlen, "10.0.1.10", 5001, expect) };
     // F-C16-1: TTL 0, 1, 2 in turn; only the last one may (and must) arrive
     let mut a = topo("65535,65535");
     a.push(raw(1, 0, 4, "-"));
@@ -1073,7 +1495,34 @@ fn fixed_cases() -> Vec<Vec<String>> {
     let mut b = topo("1500,60");
     b.push(raw(1, 9, 4, "1"));
     b.push(raw(2, 9, 72, "-"));
-    vec![a, b]
+    // nested prefixes: a /32 host route inside a /31 with a lower network id that points elsewhere,
+    // and a /31 and a /32 with the SAME network id registered one after the other (two routes)
+    let n: Vec<String> = vec![
+        "topo nets=3 mtus=65535,65535,65535 lat=1000,1000,1000 clean=0".into(),
+        "host 0 net=0 mac=0 ip=10.0.0.10 mask=24 gw=10.0.0.1 port=5000".into(),
+        "host 1 net=1 mac=0 ip=10.0.1.11 mask=24 gw=10.0.1.1 port=5001".into(),
+        "host 2 net=2 mac=0 ip=10.0.2.10 mask=24 gw=10.0.2.1 port=5002".into(),
+        "router 3 slots=0:1:10.0.0.1,1:1:10.0.1.1,2:1:10.0.2.1 routes=10.0.0.0/24/-/0;10.0.1.0/24/-/1;10.0.2.0/24/-/2;10.0.1.10/31/-/2;10.0.1.11/32/-/1;10.0.2.10/32/-/2;10.0.2.10/31/-/1;10.0.2.8/30/10.0.0.77/0".into(),
+        raw_to(1, 9, 4, "10.0.1.11", 5001, "1"),
+        raw_to(2, 9, 4, "10.0.2.10", 5002, "2"),
+        raw_to(3, 9, 4, "10.0.2.11", 5002, "-"),
+    ];
+    // a destination whose ARP replies are lost for a whole retry budget, then heard again: the
+    // first datagram dies at the router, the later ones must arrive
+    let mut m = topo("65535,65535");
+    m.push("mute 1 out".into());
+    m.push(raw(1, 9, 4, "-"));
+    m.push(raw(2, 9, 4, "-"));
+    m.push("mute - -".into());
+    m.push(raw(3, 9, 4, "1"));
+    m.push(raw(4, 9, 4, "1"));
+    // a destination host that claims its address only later
+    let mut l = topo("65535,65535");
+    l[2].push_str(" late=1");
+    l.push(raw(1, 9, 4, "-"));
+    l.push("claim 1 ip=10.0.1.10 mask=24 gw=10.0.1.1 port=5001".into());
+    l.push(raw(2, 9, 4, "1"));
+    vec![a, b, n, m, l]
 }
 
 pub fn run(args: &Args) {
